@@ -64,6 +64,7 @@ def run_forked(prop, case, hashseed, wall=CHILD_WALL_S):
             clock.install()
             env = Env(clock, hashseed)
             try:
+                env.budget_used_permille = 0
                 if isinstance(case, dict) and case.get('knob_logging'):
                     from gambatools.global_settings import GambaTools
                     GambaTools.enable_logging = True       # ambient configuration, drawn per case (swarm style)
@@ -72,6 +73,8 @@ def run_forked(prop, case, hashseed, wall=CHILD_WALL_S):
                 res = {'harness_error': 'uncaught SimTimeout: %s' % e}
             except BaseException:
                 res = {'harness_error': traceback.format_exc()}
+            if isinstance(res, dict) and isinstance(res.get('hist'), dict):
+                res['hist']['max:tick_budget_used_permille'] = env.budget_used_permille
             sys.stdout = real_stdout
             data = json.dumps(res, ensure_ascii=False).encode('utf-8')
             with os.fdopen(w, 'wb') as f:
@@ -203,7 +206,7 @@ def do_round(pid, seed, rnd, tier):
         for k, v in res.get('probes', {}).items():
             out['probes'][k] = out['probes'].get(k, 0) + v
         for k, v in res.get('hist', {}).items():
-            out['hist'][k] = out['hist'].get(k, 0) + v
+            out['hist'][k] = max(out['hist'].get(k, 0), v) if k.startswith('max:') else out['hist'].get(k, 0) + v
         dig.append([res.get('digest'), res.get('ticks', 0)])
         if i < 2 and rnd < 2:
             out['samples'].append(prop.sample(case, res))
